@@ -208,6 +208,12 @@ def prove(res, qualnames, second_backend=False, crosscheck_limit=1500):
     return report
 
 
+def kind_matches(kind, prefix):
+    """a recorded finding class matches a failure kind exactly, or as a prefix ending at a ':' boundary (sub-labels follow a colon);
+    a bare string prefix would let 'id-missing' swallow 'id-missing-other'"""
+    return kind == prefix or kind.startswith(prefix + ':')
+
+
 def pmap(fn, jobs, workers=None):
     workers = workers or min(16, os.cpu_count() or 4)
     if len(jobs) <= 1 or workers == 1:
